@@ -35,8 +35,19 @@ _W = {}
 
 
 # ---------------------------------------------------------------------------- worker side
+def _limit_memory():
+    import resource
+
+    gb = float(os.environ.get("VERIF_WORKER_GB", "3.5"))
+    try:
+        resource.setrlimit(resource.RLIMIT_AS, (int(gb * (1 << 30)), int(gb * (1 << 30))))
+    except Exception:
+        pass
+
+
 def _sym_init(modname, canary):
     sys.setrecursionlimit(10000)
+    _limit_memory()
     from symx import shims
 
     mod = importlib.import_module(modname)
@@ -49,6 +60,7 @@ def _sym_init(modname, canary):
 
 def _plain_init(modname, canary):
     sys.setrecursionlimit(10000)
+    _limit_memory()
     mod = importlib.import_module(modname)
     _W["mod"] = mod
     if canary is not None:
@@ -156,7 +168,7 @@ def _work(item):
         while stack:
             if out["paths"] >= max_paths or time.time() > deadline:
                 break
-            st = stack.pop()
+            st = core.as_start(stack.pop())
             if first and task["harness"] not in _W["profiled"] and start is None:
                 ctx, res, fns = _collect_functions(fn, engine, st)
                 out["functions"] = fns
@@ -186,7 +198,7 @@ def _work(item):
         out["sat"] = engine.n_sat
         out["unknown"] = engine.n_unknown
         out["solver_s"] = engine.solver_s
-        out["leftover"] = stack
+        out["leftover"] = [core.as_start(x) for x in stack]
     except BaseException as e:  # EngineError and anything unexpected: harness failure
         out["error"] = "%s: %s\n%s" % (type(e).__name__, e, traceback.format_exc()[-3000:])
     out["wall"] = time.time() - t0
@@ -244,7 +256,7 @@ def run_check(modname, tier, seed, canary=None, quiet=False):
     ctxm = mp.get_context("fork")
     sym_pool = ProcessPoolExecutor(NPROC, mp_context=ctxm, initializer=_sym_init, initargs=(modname, canary))
     plain_pool = ProcessPoolExecutor(
-        max(2, NPROC // 4), mp_context=ctxm, initializer=_plain_init, initargs=(modname, canary)
+        max(2, NPROC // 2), mp_context=ctxm, initializer=_plain_init, initargs=(modname, canary)
     )
     agg = {
         "paths": 0,
@@ -274,6 +286,7 @@ def run_check(modname, tier, seed, canary=None, quiet=False):
     vflight = set()
     timed_out = False
     early = False
+    broken = False
     try:
         while pending or inflight:
             while pending and len(inflight) < NPROC * 2:
@@ -282,7 +295,12 @@ def run_check(modname, tier, seed, canary=None, quiet=False):
             done, _ = wait(list(inflight), timeout=1.0, return_when=FIRST_COMPLETED)
             for fu in done:
                 it = inflight.pop(fu)
-                r = fu.result()
+                try:
+                    r = fu.result()
+                except Exception as e:  # a worker died (e.g. killed): harness failure, never a verdict
+                    errors.append((it[0]["id"], "worker failed: %r" % (e,)))
+                    broken = True
+                    continue
                 task = it[0]
                 if r["error"]:
                     errors.append((task["id"], r["error"]))
@@ -312,6 +330,8 @@ def run_check(modname, tier, seed, canary=None, quiet=False):
                 nb = min(it[2] * 2, 30.0)
                 for st in r["leftover"]:
                     pending.append((task, st, nb, 100000))
+            if broken:
+                break
             if time.time() > deadline:
                 timed_out = True
                 break
@@ -319,8 +339,16 @@ def run_check(modname, tier, seed, canary=None, quiet=False):
                 # canary runs only need one reproducing witness: stop exploring early
                 early = True
                 break
+        vdeadline = max(deadline, time.time()) + 120
+        unvalidated = 0
         for fu in list(vflight):
-            n, bad, viol = fu.result()
+            try:
+                n, bad, viol = fu.result(timeout=max(0.1, vdeadline - time.time()))
+            except Exception as e:  # timeout / dead worker
+                unvalidated += 1
+                if len(errors) < 5:
+                    errors.append(("validation", "validation batch failed: %r" % (e,)))
+                continue
             validated += n
             mismatches.extend(bad)
             val_violations.extend(viol)
@@ -409,7 +437,7 @@ def run_check(modname, tier, seed, canary=None, quiet=False):
     if errors:
         problems.append("harness errors: %s" % errors[:3])
     if nonexh:
-        problems.append("non-exhaustive: %s" % (Counter(n for _, n in nonexh).most_common(3),))
+        problems.append("non-exhaustive: %s in tasks %s" % (Counter(n for _, n in nonexh).most_common(3), sorted(set(t for t, _ in nonexh))[:6]))
     if inconclusive:
         problems.append("inconclusive obligations (solver unknown): %s" % inconclusive[:3])
     if engine_mismatch:
